@@ -802,9 +802,10 @@ func checkTombstones(c *Ctx) {
 
 // insertsInto: g (transitively) inserts into table.
 func insertsInto(p *core.Program, g *ssa.Function, table string, depth int) bool {
-	if g == nil || g.Blocks == nil || depth < 0 {
+	if g == nil || g.Blocks == nil {
 		return false
 	}
+	depth = 1 << 20 // unbounded: the memo must not depend on the depth at which a function was first reached
 	key := fmt.Sprintf("insertsInto:%s:%s", table, g.String())
 	if v, ok := p.MemoGet(key); ok {
 		return v.(bool)
